@@ -149,6 +149,19 @@ func (g *Gen) GenFunc(key string) (res *FnResult) {
 					}
 					c.oblige(r.st, path, fmt.Sprintf("frame:modifies@ret%d", j+1), goal, "only the heaps named in modifies change on pre-existing objects", r.pos)
 				}
+				// builders: only the builders listed as sb(...) may have a different content than at entry
+				sb := sbHeap(g)
+				// (a function whose inferred write set has no builder heap writes only builders that are its own plain
+				// locals: nothing to show)
+				if a, b := fr.entry.Heap(sb), r.st.Heap(sb); a != b && g.WriteSetOf(fn).Names[sb] {
+					oe := env.clone()
+					oe.Cur = fr.entry
+					var keys []string
+					for _, mb := range con.ModBuilders {
+						keys = append(keys, oe.sbKey(oe.Eval(mb.Expr)))
+					}
+					c.oblige(r.st, path, fmt.Sprintf("frame:builders@ret%d", j+1), sbFrame(a, b, fr.entry.next, keys), "only the strings.Builders named as sb(...) in modifies change their content", r.pos)
+				}
 			}
 		}
 	}
